@@ -87,9 +87,45 @@ type rangeIter struct {
 	val Val
 }
 
+// rangeGhost: ghost state of a range over a map: the set of keys already produced (visited) and the key set at
+// the start of the iteration (dom0). Go guarantees every key that is present at the start and is not deleted
+// before being reached is produced exactly once; keys added during the iteration may or may not be produced.
+func rangeGhostKeys(in *ssa.Range, ks string) (visKey, domKey, srt string) {
+	return "mapdom_rngvis_" + in.Name(), "mapdom_rngdom_" + in.Name(), fmt.Sprintf("(Array %s Bool)", ks)
+}
+
 func (e *Encoder) rangeInit(in *ssa.Range, st *State, pc string) {
 	e.ranges[in] = rangeIter{in.X, e.val(in.X)}
 	e.vals[in] = Val{T: in.Type(), S: "iter"}
+	if mt, ok := in.X.Type().Underlying().(*types.Map); ok {
+		c := e.c
+		ks := c.sortOf(mt.Key())
+		vk, dk, srt := rangeGhostKeys(in, ks)
+		c.memSorts[vk], c.memSorts[dk] = srt, srt
+		// (declared constants, not macros: they occur in quantifier patterns)
+		vis, dom0 := c.fresh("G_vis"), c.fresh("G_dom0")
+		c.declare(vis, srt)
+		c.declare(dom0, srt)
+		c.assume(fmt.Sprintf("(= %s ((as const %s) false))", vis, srt))
+		env := e.envFor(st)
+		m := e.val(in.X)
+		c.assume(fmt.Sprintf("(= %s (ite (= %s map_nil) ((as const %s) false) %s))", dom0, m.S, srt, env.mapDom(m, mt)))
+		st.mem[vk], st.mem[dk] = vis, dom0
+	}
+}
+
+// mapRangeOf: the map-range iterator advanced in block b (a loop header), if any.
+func mapRangeOf(b *ssa.BasicBlock) *ssa.Range {
+	for _, in := range b.Instrs {
+		if nx, ok := in.(*ssa.Next); ok && !nx.IsString {
+			if r, ok := nx.Iter.(*ssa.Range); ok {
+				if _, ismap := r.X.Type().Underlying().(*types.Map); ismap {
+					return r
+				}
+			}
+		}
+	}
+	return nil
 }
 
 func (e *Encoder) rangeNext(in *ssa.Next, st *State, pc string) {
@@ -106,6 +142,21 @@ func (e *Encoder) rangeNext(in *ssa.Next, st *State, pc string) {
 			env := e.envFor(st)
 			m := it.val
 			c.assume(implies(and(pc, okv.S), env.mapHas(m, mt, kv.S)))
+			// ghost: the produced key was not produced before; when the iteration ends, every key present
+			// since the start has been produced
+			rg := in.Iter.(*ssa.Range)
+			ks := c.sortOf(mt.Key())
+			vk, dk, srt := rangeGhostKeys(rg, ks)
+			vis, dom0 := st.get(c, vk, srt), st.get(c, dk, srt)
+			c.assume(implies(and(pc, okv.S), not(fmt.Sprintf("(select %s %s)", vis, kv.S))))
+			domNow := c.fresh("G_dom")
+			c.declare(domNow, srt)
+			c.assume(fmt.Sprintf("(= %s (ite (= %s map_nil) ((as const %s) false) %s))", domNow, m.S, srt, env.mapDom(m, mt)))
+			c.assume(implies(and(pc, not(okv.S)), fmt.Sprintf("(forall ((k!r %s)) (! (=> (and (select %s k!r) (select %s k!r)) (select %s k!r)) :pattern ((select %s k!r)) :pattern ((select %s k!r))))", ks, dom0, domNow, vis, vis, env.mapDom(m, mt))))
+			nvis := c.fresh("G_vis")
+			c.declare(nvis, srt)
+			c.assume(fmt.Sprintf("(= %s (ite %s (store %s %s true) %s))", nvis, okv.S, vis, kv.S, vis))
+			st.mem[vk] = nvis
 			if _, isInvalid := tup.At(2).Type().(*types.Basic); !(isInvalid && tup.At(2).Type().(*types.Basic).Kind() == types.Invalid) {
 				c.assume(implies(and(pc, okv.S), fmt.Sprintf("(= %s %s)", vv.S, env.mapGet(m, mt, kv.S).S)))
 			}
